@@ -15,7 +15,7 @@ Section sim.
   Lemma hold_chs_sim : forall vs c0 st cs st' cmds pre post s K I,
     tr_hold_chs c0 vs st = Ok (cs, st') -> cmds = pre ++ cs ++ post -> v_pc s = length pre ->
     (c0 + length vs = length (v_cur s))%nat -> Pact st s -> Pplain st s -> Idep Fs K st s I -> Knz K ->
-    (forall ch b fs, nth_off c0 vs ch = Some (b, Some fs) -> mk_key fs <> [] -> K (ch, mk_key fs) /\ In (ch, fs) Fs) ->
+    (forall ch b fs, nth_off c0 vs ch = Some (b, Some fs) -> mk_key fs <> [] -> K (ch, mk_key fs) /\ In (ch, fs) Fs /\ length fs = length I) ->
     length (t_iters st) = length I -> dyn_ok (t_iters st) I ->
     exists s', reach cmds s s' /\ v_pc s' = (length pre + length cs)%nat /\ Pact st' s' /\ Pplain st' s' /\ Idep Fs K st' s' I /\
       same_ctl s s' /\
@@ -53,9 +53,9 @@ Section sim.
           destruct (tr_hold_chs (S c0) vs st1) as [[c2 st2]|] eqn:E2; cbn [bind] in HT; [|discriminate].
           inversion HT; subst cs st2; clear HT.
           assert (Hnz : mk_key fs <> []) by (intros X; rewrite X in Ez; cbn in Ez; discriminate).
-          destruct (HKin c0 b fs) as [HKk HIn]; [cbn; now rewrite Nat.eqb_refl|exact Hnz|].
+          destruct (HKin c0 b fs) as (HKk & HIn & HLfs); [cbn; now rewrite Nat.eqb_refl|exact Hnz|].
           assert (Hc' : cmds = pre ++ c1 ++ (c2 ++ post)) by (rewrite Hc, <- app_assoc; reflexivity).
-          destruct (ch_indexed Fs Fs_inj c0 b fs st c1 st1 cmds pre (c2 ++ post) s K I E1 Hc' Hpc Hlt HA HP HD HK HKk HIn HLI HDyn)
+          destruct (ch_indexed Fs Fs_inj c0 b fs st c1 st1 cmds pre (c2 ++ post) s K I E1 Hc' Hpc Hlt HA HP HD HK HKk HIn HLfs HLI HDyn)
             as (s1 & R & P1 & A1 & PP1 & D1 & SC & V & O & F).
           exists c1, st1, c2. split; auto. split; auto. split; [apply (set_indexed_summ _ _ _ _ _ _ E1)|].
           exists s1. repeat (split; auto).
